@@ -13,8 +13,8 @@
 //!     prohibited vowel sequences). The model never calls allsorts.
 //!
 //! Where the documents leave a choice open (order of "sort" vs. "rewrite", overlapping prohibited
-//! pairs, cross-script above-base marks before SARA AM) the exact check is restricted to the
-//! inputs on which all readings agree (class `exact-skipped:*`); the relational layer still runs.
+//! pairs, cross-script above-base marks before SARA AM) the output has to equal one of the
+//! readings (class `exact:*-alternative-reading` when it is not the primary one).
 //!
 //! `--mode strict` additionally turns "documented rewrite not applied" (allowed by the letter of
 //! C17, which only limits what may change) into violations (rule `missed-rewrite`).
@@ -585,4 +585,1099 @@ fn count(v: &[char], c: char) -> usize {
     v.iter().filter(|&&x| x == c).count()
 }
 
-//@@PART2@@
+// ---------------------------------------------------------------------------------------------
+// Pools and text generation
+// ---------------------------------------------------------------------------------------------
+
+#[derive(Default)]
+struct Block {
+    bases: Vec<char>,
+    marks: Vec<char>,
+}
+
+type StaticFont = Font<DynamicFontTableProvider<'static>>;
+
+pub struct C17 {
+    u: Ucd,
+    blocks: Vec<(Blk, Block)>,
+    /// every assigned character with ccc != 0
+    all_marks: Vec<char>,
+    /// marks grouped by class, for runs with many equal keys
+    marks_by_class: Vec<Vec<char>>,
+    specials: Vec<char>,
+    astral: Vec<char>,
+    words: Vec<(Blk, Vec<Vec<char>>)>,
+    fonts: Vec<StaticFont>,
+    total_weight: u32,
+    strict: bool,
+}
+
+fn load_font(path: &str) -> Option<StaticFont> {
+    let data: &'static [u8] = Box::leak(std::fs::read(path).ok()?.into_boxed_slice());
+    let fd = ReadScope::new(data).read::<FontData<'static>>().ok()?;
+    let provider = fd.table_provider(0).ok()?;
+    Font::new(provider).ok()
+}
+
+fn load_words(path: &str, max: usize) -> Vec<Vec<char>> {
+    let s = match std::fs::read_to_string(path) {
+        Ok(s) => s,
+        Err(_) => return Vec::new(),
+    };
+    let lines: Vec<&str> = s.lines().filter(|l| !l.is_empty() && l.chars().count() <= 48).collect();
+    let stride = (lines.len() / max.max(1)).max(1);
+    lines.iter().step_by(stride).map(|l| l.chars().collect()).collect()
+}
+
+impl C17 {
+    pub fn new(cx: &mut Ctx) -> C17 {
+        let u = Ucd::new();
+        let mut blocks = Vec::new();
+        for &(b, ranges) in BLOCKS {
+            let mut blk = Block::default();
+            for &(lo, hi) in ranges {
+                for cp in lo..=hi {
+                    if let Some(c) = char::from_u32(cp) {
+                        // the pool only contains characters the generated table knows
+                        if !u.known(c) {
+                            continue;
+                        }
+                        if u.is_mark(c) {
+                            blk.marks.push(c);
+                        } else {
+                            blk.bases.push(c);
+                        }
+                    }
+                }
+            }
+            blocks.push((b, blk));
+        }
+        let mut all_marks = Vec::new();
+        let mut marks_by_class: Vec<Vec<char>> = vec![Vec::new(); 256];
+        for &(lo, hi, v) in tb::CCC {
+            for cp in lo..=hi {
+                if let Some(c) = char::from_u32(cp) {
+                    all_marks.push(c);
+                    marks_by_class[v as usize].push(c);
+                }
+            }
+        }
+        marks_by_class.retain(|v| !v.is_empty());
+        let mut specials = vec![ZWJ, ZWNJ, CGJ, DOTTED_CIRCLE, ' ', '\u{00A0}', '-', '\u{FE00}', '\u{FE01}', '\u{FE02}', '\u{FE0E}', '\u{FE0F}', '\u{FE03}', '\u{E0100}', '\u{E01EF}', '\u{180B}', '\u{200B}', '\u{2060}', '\u{FEFF}', '\u{0640}', '\u{E000}', '\u{F8FF}', '\u{0000}', '\u{FFFD}', '\u{02FF}', '\u{0300}'];
+        let mut astral = vec!['\u{1F600}', '\u{10000}', '\u{1D165}', '\u{1D166}', '\u{1D167}', '\u{1D16D}', '\u{1D17B}', '\u{1D185}', '\u{1E8D0}', '\u{1E8D6}', '\u{10A0D}', '\u{10A0F}', '\u{10A38}', '\u{10A39}', '\u{10A3A}', '\u{10A3F}', '\u{11046}', '\u{1D242}', '\u{16AF0}', '\u{F0000}', '\u{10FFFD}', '\u{20000}', '\u{1F1E6}', '\u{E0001}'];
+        specials.retain(|&c| u.known(c));
+        astral.retain(|&c| u.known(c));
+        // self-checks of the tables the model relies on (a failure means the oracle is unusable)
+        let expect_ccc: &[(u32, u8)] = &[(0x0651, 33), (0x0654, 230), (0x0655, 220), (0x064B, 27), (0x0670, 35), (0x0711, 36), (0x05B0, 10), (0x05BC, 21), (0x0E38, 103), (0x0E48, 107), (0x0EB8, 118), (0x0EC8, 122), (0x0C55, 84), (0x0C56, 91), (0x093C, 7), (0x094D, 9), (0x17D2, 9), (0x0E4D, 0), (0x0E33, 0), (0x034F, 0), (0x200D, 0), (0x25CC, 0), (0x0F71, 129), (0x0345, 240)];
+        let mut ok = tb::MATRA_SPLITS.len() >= 21 && tb::AM_SPLITS.len() == 2 && tb::YA_NUKTA == (0x09DF, [0x09AF, 0x09BC]);
+        for &(cp, v) in expect_ccc {
+            ok &= u.ccc(ch(cp)) == v && u.known(ch(cp));
+        }
+        for &m in MCM {
+            ok &= u.known(m) && (u.ccc(m) == 220 || u.ccc(m) == 230);
+        }
+        if !ok {
+            cx.inconclusive("oracle-self-check:tables");
+            eprintln!("C17: generated tables failed the self-check (unicode {})", tb::UNIDATA_VERSION);
+        }
+        let mut words = Vec::new();
+        let max = if cx.quick() { 1500 } else { 6000 };
+        for (b, f) in [
+            (Blk::Deva, "indic/good.hi"),
+            (Blk::Beng, "indic/good.bn"),
+            (Blk::Guru, "indic/good.pa"),
+            (Blk::Gujr, "indic/good.gu"),
+            (Blk::Orya, "indic/good.or"),
+            (Blk::Taml, "indic/good.ta"),
+            (Blk::Telu, "indic/good.te"),
+            (Blk::Knda, "indic/good.kn"),
+            (Blk::Mlym, "indic/good.ml"),
+            (Blk::Sinh, "indic/good.si"),
+            (Blk::Khmer, "khmer/good"),
+            (Blk::Myanmar, "myanmar/good"),
+        ] {
+            let w = load_words(&format!("/repo/tests/{}", f), max);
+            if !w.is_empty() {
+                words.push((b, w));
+            }
+        }
+        let mut fonts = Vec::new();
+        for f in ["NotoSansThai-Regular.ttf", "NotoNaskhArabic-Regular.ttf", "NotoSansKannada-Regular.ttf"] {
+            if let Some(font) = load_font(&format!("/repo/tests/fonts/noto/{}", f)) {
+                fonts.push(font);
+            }
+        }
+        let total_weight = SCRIPTS.iter().map(|s| s.weight).sum();
+        let strict = cx.mode == "strict";
+        C17 { u, blocks, all_marks, marks_by_class, specials, astral, words, fonts, total_weight, strict }
+    }
+
+    fn block(&self, b: Blk) -> &Block {
+        self.blocks.iter().find(|(k, _)| *k == b).map(|(_, v)| v).unwrap_or(&self.blocks[0].1)
+    }
+
+    fn pick_script(&self, rng: &mut Rng) -> &'static Sc {
+        let mut k = rng.below(self.total_weight as usize) as u32;
+        for s in SCRIPTS {
+            if k < s.weight {
+                return s;
+            }
+            k -= s.weight;
+        }
+        &SCRIPTS[0]
+    }
+
+    fn any_base(&self, rng: &mut Rng) -> char {
+        let b = &self.blocks[rng.below(self.blocks.len())].1;
+        if b.bases.is_empty() {
+            'a'
+        } else {
+            *rng.pick(&b.bases)
+        }
+    }
+
+    fn base_of(&self, rng: &mut Rng, home: Blk) -> char {
+        let b = self.block(home);
+        if b.bases.is_empty() || rng.chance(1, 24) {
+            self.any_base(rng)
+        } else {
+            *rng.pick(&b.bases)
+        }
+    }
+
+    fn mark_of(&self, rng: &mut Rng, home: Blk) -> char {
+        let b = self.block(home);
+        if b.marks.is_empty() || rng.chance(1, 8) {
+            *rng.pick(&self.all_marks)
+        } else {
+            *rng.pick(&b.marks)
+        }
+    }
+
+    /// a run of `n` marks drawn from a small palette (many equal keys, several classes)
+    fn mark_run(&self, rng: &mut Rng, home: Blk, n: usize, out: &mut Vec<char>) {
+        let mut palette: Vec<char> = Vec::new();
+        let psize = 1 + rng.below(8);
+        for _ in 0..psize {
+            match rng.below(6) {
+                0 => {
+                    // two different marks of one class: stability is observable
+                    let cls = rng.pick(&self.marks_by_class);
+                    palette.push(*rng.pick(cls));
+                    palette.push(*rng.pick(cls));
+                }
+                1 => palette.push(*rng.pick(&self.all_marks)),
+                _ => palette.push(self.mark_of(rng, home)),
+            }
+        }
+        if home == Blk::Arabic || rng.chance(1, 10) {
+            if rng.chance(3, 4) {
+                palette.push(SHADDA);
+            }
+            for _ in 0..rng.below(4) {
+                palette.push(*rng.pick(MCM));
+            }
+            for _ in 0..rng.below(3) {
+                palette.push(ch(rng.urange(0x064B, 0x0652) as u32));
+            }
+            if rng.chance(1, 3) {
+                palette.push(*rng.pick(&['\u{0656}', '\u{065C}', '\u{0653}', '\u{0670}', '\u{0618}', '\u{0619}', '\u{061A}', '\u{06ED}', '\u{06E1}']));
+            }
+        }
+        for _ in 0..n {
+            out.push(*rng.pick(&palette));
+        }
+    }
+
+    fn seg_arabic(&self, rng: &mut Rng, out: &mut Vec<char>) {
+        // several shaddas interleaved with MCMs and marks of classes 27-35, 220, 230
+        if !rng.chance(1, 6) {
+            out.push(self.base_of(rng, Blk::Arabic));
+        }
+        let n = match rng.below(8) {
+            0 if rng.chance(1, 12) => rng.urange(65, 300),
+            0 => rng.urange(21, 48),
+            1 => rng.urange(12, 24),
+            _ => rng.urange(1, 9),
+        };
+        let marks: &[u32] = &[0x064B, 0x064C, 0x064D, 0x064E, 0x064F, 0x0650, 0x0651, 0x0652, 0x0653, 0x0656, 0x065C, 0x0670, 0x0618, 0x0619, 0x061A, 0x06D6, 0x06DF, 0x06E1, 0x06EA, 0x06ED, 0x08D4, 0x08E3, 0x08F0, 0x08F1, 0x08F2, 0x05B0, 0x05BC, 0x0711, 0x0300, 0x0316];
+        for _ in 0..n {
+            let c = match rng.below(10) {
+                0..=2 => SHADDA,
+                3..=5 => *rng.pick(MCM),
+                6 if rng.chance(1, 6) => CGJ,
+                _ => ch(*rng.pick(marks)),
+            };
+            out.push(c);
+        }
+    }
+
+    fn seg_thai_lao(&self, rng: &mut Rng, lao: bool, out: &mut Vec<char>) {
+        let (base, am, tones, above, below, nik): (u32, u32, &[u32], &[u32], &[u32], u32) = if !lao {
+            (0x0E01, 0x0E33, &[0x0E48, 0x0E49, 0x0E4A, 0x0E4B], &[0x0E31, 0x0E34, 0x0E35, 0x0E36, 0x0E37, 0x0E47, 0x0E4C, 0x0E4D, 0x0E4E], &[0x0E38, 0x0E39, 0x0E3A], 0x0E4D)
+        } else {
+            (0x0E81, 0x0EB3, &[0x0EC8, 0x0EC9, 0x0ECA, 0x0ECB], &[0x0EB1, 0x0EB4, 0x0EB5, 0x0EB6, 0x0EB7, 0x0EBB, 0x0ECC, 0x0ECD], &[0x0EB8, 0x0EB9, 0x0EBA, 0x0EBC], 0x0ECD)
+        };
+        let nsyl = 1 + rng.below(4);
+        for _ in 0..nsyl {
+            if !rng.chance(1, 8) {
+                out.push(if rng.chance(1, 3) { ch(base + rng.below(20) as u32) } else { self.base_of(rng, if lao { Blk::Lao } else { Blk::Thai }) });
+            }
+            for _ in 0..rng.small(5) {
+                let c = match rng.below(10) {
+                    0..=3 => *rng.pick(tones),
+                    4..=5 => *rng.pick(above),
+                    6..=7 => *rng.pick(below),
+                    8 => nik,
+                    _ => {
+                        // the other script's marks
+                        if lao { *rng.pick(&[0x0E48u32, 0x0E49, 0x0E34, 0x0E38]) } else { *rng.pick(&[0x0EC8u32, 0x0EC9, 0x0EB4, 0x0EB8]) }
+                    }
+                };
+                out.push(ch(c));
+            }
+            if rng.chance(2, 3) {
+                out.push(ch(am));
+                if rng.chance(1, 6) {
+                    out.push(ch(am));
+                }
+            }
+        }
+    }
+
+    fn seg_indic(&self, rng: &mut Rng, s: &Sc, out: &mut Vec<char>) {
+        let home = s.home;
+        match rng.below(9) {
+            0 => {
+                // two-/three-part vowel after a base (own script preferred)
+                let own: Vec<u32> = tb::MATRA_SPLITS.iter().map(|(k, _)| *k).filter(|k| self.block(home).bases.contains(&ch(*k)) || self.block(home).marks.contains(&ch(*k))).collect();
+                out.push(self.base_of(rng, home));
+                for _ in 0..rng.small(2) {
+                    out.push(self.mark_of(rng, home));
+                }
+                let k = if own.is_empty() || rng.chance(1, 5) { tb::MATRA_SPLITS[rng.below(tb::MATRA_SPLITS.len())].0 } else { *rng.pick(&own) };
+                out.push(ch(k));
+                for _ in 0..rng.small(3) {
+                    out.push(self.mark_of(rng, home));
+                }
+            }
+            1 => {
+                // prohibited vowel pair (own script preferred), sometimes chained / with a mark between
+                let lo = self.block(home).bases.first().map(|c| *c as u32 & !0x7F).unwrap_or(0);
+                let own: Vec<(u32, u32)> = PROHIBITED_PAIRS.iter().copied().filter(|(a, _)| (a & !0x7F) == lo).collect();
+                let (a, b) = if own.is_empty() || rng.chance(1, 5) { *rng.pick(PROHIBITED_PAIRS) } else { *rng.pick(&own) };
+                out.push(ch(a));
+                if rng.chance(1, 8) {
+                    out.push(self.mark_of(rng, home));
+                }
+                out.push(ch(b));
+                if rng.chance(1, 3) {
+                    // something that chains onto the second character
+                    let next: Vec<u32> = PROHIBITED_PAIRS.iter().filter(|(x, _)| *x == b).map(|(_, y)| *y).collect();
+                    if !next.is_empty() {
+                        out.push(ch(*rng.pick(&next)));
+                    } else {
+                        out.push(ch(b));
+                    }
+                }
+            }
+            2 => {
+                // reph + I
+                if rng.chance(1, 3) {
+                    out.push(self.base_of(rng, Blk::Deva));
+                }
+                out.extend_from_slice(&REPH_I[..2]);
+                if rng.chance(1, 6) {
+                    out.push(*rng.pick(&[ZWJ, ZWNJ, '\u{093C}']));
+                }
+                out.push(if rng.chance(4, 5) { REPH_I[2] } else { '\u{0908}' });
+            }
+            3 => {
+                // Bengali ya + nukta, with marks that sort around the nukta
+                out.push('\u{09AF}');
+                for _ in 0..rng.small(2) {
+                    out.push(*rng.pick(&['\u{09CD}', '\u{09BC}', '\u{09C1}', '\u{0981}', '\u{09FE}', '\u{0951}']));
+                }
+                out.push('\u{09BC}');
+                if rng.chance(1, 3) {
+                    out.push('\u{09AF}');
+                    out.push('\u{09BC}');
+                }
+            }
+            4 => {
+                // Kannada ra + halant + ZWJ (at the start when the text is still empty)
+                if rng.chance(1, 4) {
+                    out.push(self.base_of(rng, Blk::Knda));
+                }
+                out.push(KNDA_RA);
+                if rng.chance(1, 8) {
+                    out.push('\u{0CBC}');
+                }
+                out.push(KNDA_HALANT);
+                out.push(if rng.chance(5, 6) { ZWJ } else { ZWNJ });
+                out.push(self.base_of(rng, Blk::Knda));
+            }
+            5 => {
+                // halant / nukta / length-mark permutations (modified classes 4, 5, 7, 9)
+                out.push(self.base_of(rng, home));
+                let m: &[u32] = &[0x093C, 0x094D, 0x0C4D, 0x0C55, 0x0C56, 0x0CBC, 0x0CCD, 0x09BC, 0x09CD, 0x0DCA, 0x0951, 0x0952, 0x1CD0, 0x0B3C, 0x0B4D, 0x0A3C, 0x0A4D, 0x0D4D, 0x0D3B];
+                for _ in 0..1 + rng.small(5) {
+                    out.push(ch(*rng.pick(m)));
+                }
+            }
+            _ => {
+                if let Some((_, w)) = self.words.iter().find(|(b, _)| *b == home) {
+                    out.extend_from_slice(&w[rng.below(w.len())]);
+                } else {
+                    out.push(self.base_of(rng, home));
+                    out.push(self.mark_of(rng, home));
+                }
+            }
+        }
+    }
+
+    fn seg_generic(&self, rng: &mut Rng, home: Blk, out: &mut Vec<char>) {
+        match rng.below(10) {
+            0 => out.push(*rng.pick(&self.specials)),
+            1 => out.push(*rng.pick(&self.astral)),
+            2 => {
+                // lone marks
+                for _ in 0..1 + rng.small(4) {
+                    out.push(self.mark_of(rng, home));
+                }
+            }
+            3 => {
+                // long run
+                if rng.bool() {
+                    out.push(self.base_of(rng, home));
+                }
+                let n = if rng.chance(1, 2) { rng.urange(32, 60) } else { rng.urange(18, 34) };
+                self.mark_run(rng, home, n, out);
+            }
+            4 => {
+                // foreign script syllable
+                let b = self.blocks[rng.below(self.blocks.len())].0;
+                out.push(self.base_of(rng, b));
+                for _ in 0..rng.small(3) {
+                    out.push(self.mark_of(rng, b));
+                }
+            }
+            5 => {
+                if let Some((_, w)) = self.words.iter().find(|(b, _)| *b == home) {
+                    out.extend_from_slice(&w[rng.below(w.len())]);
+                } else {
+                    out.push(self.base_of(rng, home));
+                }
+            }
+            6 => {
+                // marks separated by a joiner / CGJ / variation selector
+                out.push(self.base_of(rng, home));
+                out.push(self.mark_of(rng, home));
+                out.push(*rng.pick(&[ZWJ, ZWNJ, CGJ, '\u{FE0F}', '\u{FE00}', DOTTED_CIRCLE]));
+                out.push(self.mark_of(rng, home));
+            }
+            _ => {
+                out.push(self.base_of(rng, home));
+                let n = rng.small(6);
+                self.mark_run(rng, home, n, out);
+            }
+        }
+    }
+
+    fn gen_text(&self, rng: &mut Rng, s: &Sc) -> Vec<char> {
+        let mut out: Vec<char> = Vec::new();
+        let target = match rng.below(16) {
+            0 => return out,
+            1 => 1,
+            2 => 2,
+            3..=8 => rng.urange(3, 12),
+            _ => rng.urange(8, 64),
+        };
+        if target == 1 {
+            match rng.below(4) {
+                0 => out.push(self.mark_of(rng, s.home)),
+                1 => out.push(*rng.pick(&self.specials)),
+                _ => out.push(self.base_of(rng, s.home)),
+            }
+            return out;
+        }
+        // lone marks at the very start
+        if rng.chance(1, 8) {
+            for _ in 0..1 + rng.small(3) {
+                out.push(self.mark_of(rng, s.home));
+            }
+        }
+        while out.len() < target {
+            let specific = rng.chance(3, 5);
+            match s.home {
+                Blk::Arabic | Blk::Syriac if specific => self.seg_arabic(rng, &mut out),
+                Blk::Thai if specific => {
+                    let lao = rng.chance(1, 10);
+                    self.seg_thai_lao(rng, lao, &mut out)
+                }
+                Blk::Lao if specific => {
+                    let lao = !rng.chance(1, 10);
+                    self.seg_thai_lao(rng, lao, &mut out)
+                }
+                Blk::Deva | Blk::Beng | Blk::Guru | Blk::Gujr | Blk::Orya | Blk::Taml | Blk::Telu | Blk::Knda | Blk::Mlym | Blk::Sinh
+                    if specific =>
+                {
+                    self.seg_indic(rng, s, &mut out)
+                }
+                Blk::Khmer if specific && rng.bool() => {
+                    out.push(self.base_of(rng, Blk::Khmer));
+                    if rng.bool() {
+                        out.push('\u{17D2}');
+                        out.push(self.base_of(rng, Blk::Khmer));
+                    }
+                    for _ in 0..rng.small(2) {
+                        out.push(self.mark_of(rng, Blk::Khmer));
+                    }
+                    out.push(if rng.chance(1, 5) { KHMER_E } else { *rng.pick(KHMER_SPLIT) });
+                    for _ in 0..rng.small(2) {
+                        out.push(self.mark_of(rng, Blk::Khmer));
+                    }
+                }
+                _ => {
+                    // hostile material of another family now and then
+                    match rng.below(24) {
+                        0 => self.seg_arabic(rng, &mut out),
+                        1 => {
+                            let lao = rng.bool();
+                            self.seg_thai_lao(rng, lao, &mut out)
+                        }
+                        2 => self.seg_indic(rng, s, &mut out),
+                        _ => self.seg_generic(rng, s.home, &mut out),
+                    }
+                }
+            }
+        }
+        if out.len() > 64 && !(out.len() > 100 && s.class == Class::Arabic) {
+            out.truncate(64);
+        }
+        out
+    }
+
+    fn gen_arbitrary(&self, rng: &mut Rng) -> Vec<char> {
+        let n = match rng.below(8) {
+            0 => rng.below(3),
+            _ => rng.urange(1, 64),
+        };
+        let mut out = Vec::with_capacity(n);
+        while out.len() < n {
+            let cp = match rng.below(8) {
+                0 => rng.below(0x3000) as u32,
+                1 => rng.below(0x10000) as u32,
+                2 => *rng.pick(&self.all_marks) as u32,
+                _ => rng.below(0x110000) as u32,
+            };
+            if let Some(c) = char::from_u32(cp) {
+                out.push(c);
+            }
+        }
+        out
+    }
+}
+
+// ---------------------------------------------------------------------------------------------
+// Oracle
+// ---------------------------------------------------------------------------------------------
+
+struct Wit<'a> {
+    tag: u32,
+    sc: Option<&'static Sc>,
+    class: Class,
+    text: &'a [char],
+    out: &'a [char],
+}
+
+fn add(d: &mut Vec<(char, i32)>, c: char, v: i32) {
+    if let Some(e) = d.iter_mut().find(|e| e.0 == c) {
+        e.1 += v;
+    } else {
+        d.push((c, v));
+    }
+}
+
+fn get(d: &[(char, i32)], c: char) -> i32 {
+    d.iter().find(|e| e.0 == c).map(|e| e.1).unwrap_or(0)
+}
+
+impl C17 {
+    fn viol(&self, cx: &mut Ctx, w: &Wit, rule: &str, sig: &str, expected: Option<&[char]>, note: &str) {
+        let mut items = vec![
+            ("script_tag", J::s(tag_str(w.tag))),
+            ("script_class", J::s(w.class.name())),
+            ("input", hexs(w.text)),
+            ("observed", hexs(w.out)),
+        ];
+        if let Some(e) = expected {
+            items.push(("expected", hexs(e)));
+        }
+        items.push(("input_ccc", J::S(w.text.iter().map(|&c| self.u.ccc(c).to_string()).collect::<Vec<_>>().join(" "))));
+        items.push(("note", J::s(note)));
+        cx.violation(rule, sig, J::obj(items));
+    }
+
+    /// Layer 1 for Thai/Lao, Indic, Khmer: the multiset of characters of `out` is the multiset of
+    /// `text` after some of the documented rewrites. Needs only the rewrite lists.
+    fn multiset_explained(&self, class: Class, beng: bool, text: &[char], out: &[char]) -> Result<(), &'static str> {
+        let mut d: Vec<(char, i32)> = Vec::with_capacity(text.len() + 8);
+        for &c in out {
+            add(&mut d, c, 1);
+        }
+        for &c in text {
+            add(&mut d, c, -1);
+        }
+        // split vowels that disappeared must have left their parts
+        for k in 0..d.len() {
+            let (c, v) = d[k];
+            if v == 0 {
+                continue;
+            }
+            let parts: Option<[u32; 3]> = match class {
+                Class::ThaiLao => am_split(c).map(|(a, b)| [a as u32, b as u32, 0]),
+                Class::Indic | Class::Indic2 => matra_split(c).copied(),
+                _ => None,
+            };
+            if let Some(parts) = parts {
+                if v > 0 {
+                    return Err("split-vowel-created");
+                }
+                d[k].1 = 0;
+                for p in parts {
+                    if p != 0 {
+                        add(&mut d, ch(p), v); // v < 0: -s
+                    }
+                }
+            }
+        }
+        match class {
+            Class::Indic | Class::Indic2 => {
+                if beng {
+                    let (yya, parts) = tb::YA_NUKTA;
+                    let y = get(&d, ch(yya));
+                    if y > 0 {
+                        add(&mut d, ch(yya), -y);
+                        add(&mut d, ch(parts[0]), y);
+                        add(&mut d, ch(parts[1]), y);
+                    }
+                }
+                let dc = get(&d, DOTTED_CIRCLE);
+                let bound = text.iter().filter(|&&c| is_prohibited_second(c)).count() as i32;
+                if dc > 0 && dc <= bound {
+                    add(&mut d, DOTTED_CIRCLE, -dc);
+                }
+            }
+            Class::Khmer => {
+                let k = get(&d, KHMER_E);
+                let bound = text.iter().filter(|c| KHMER_SPLIT.contains(c)).count() as i32;
+                if k > 0 && k <= bound {
+                    add(&mut d, KHMER_E, -k);
+                }
+            }
+            _ => {}
+        }
+        if d.iter().all(|e| e.1 == 0) {
+            Ok(())
+        } else {
+            Err("content-changed")
+        }
+    }
+
+    /// Layer 1: class-0 characters that take no part in a documented rewrite keep their relative order.
+    fn base_order_preserved(&self, class: Class, beng: bool, text: &[char], out: &[char]) -> bool {
+        let mut inv: Vec<char> = Vec::new();
+        match class {
+            Class::ThaiLao => {
+                for &c in text {
+                    if let Some((a, b)) = am_split(c) {
+                        inv.extend_from_slice(&[c, a, b]);
+                    }
+                }
+            }
+            Class::Indic | Class::Indic2 => {
+                for &c in text {
+                    if let Some(p) = matra_split(c) {
+                        inv.push(c);
+                        inv.extend(p.iter().filter(|&&x| x != 0).map(|&x| ch(x)));
+                    }
+                }
+                if text.iter().any(|&c| is_prohibited_second(c)) {
+                    inv.push(DOTTED_CIRCLE);
+                }
+            }
+            Class::Khmer => {
+                if text.iter().any(|c| KHMER_SPLIT.contains(c)) {
+                    inv.push(KHMER_E);
+                }
+            }
+            _ => {}
+        }
+        let (yya, ya) = (ch(tb::YA_NUKTA.0), ch(tb::YA_NUKTA.1[0]));
+        let norm = |c: char| if beng && c == yya { ya } else { c };
+        let a = text.iter().copied().filter(|&c| !self.u.is_mark(c) && !inv.contains(&c)).map(norm);
+        let b = out.iter().copied().filter(|&c| !self.u.is_mark(c) && !inv.contains(&c)).map(norm);
+        a.eq(b)
+    }
+
+    /// Layers 1 and 2 for the scripts without decompositions.
+    /// `kind`: Arabic (AMTRA), Default/Syriac (stable sort).
+    fn check_permutation(&self, cx: &mut Ctx, w: &Wit, arabic: bool, known_all: bool) -> bool {
+        let (text, out) = (w.text, w.out);
+        let cname = w.class.name();
+        if !same_multiset(text, out) {
+            self.viol(cx, w, "multiset", &format!("{}:content-changed", cname), None, "output is not a permutation of the input (sentence 2: 'the result is a permutation of the input')");
+            return false;
+        }
+        if !known_all {
+            cx.class("unknown-chars:multiset-only");
+            return true;
+        }
+        let n = text.len();
+        let mut i = 0;
+        while i < n {
+            if !self.u.is_mark(text[i]) {
+                if out[i] != text[i] {
+                    self.viol(cx, w, "base-moved", &format!("{}:base-moved", cname), None, &format!("class-0 character at index {} did not keep its position", i));
+                    return false;
+                }
+                i += 1;
+                continue;
+            }
+            let s = i;
+            while i < n && self.u.is_mark(text[i]) {
+                i += 1;
+            }
+            let run = &text[s..i];
+            let got = &out[s..i];
+            let exp = if arabic {
+                self.u.amtra_run(run)
+            } else {
+                let mut e = run.to_vec();
+                self.u.stable_sort_run(&mut e);
+                e
+            };
+            if got != &exp[..] {
+                let len_cls = if run.len() > 20 { "run>20" } else { "run<=20" };
+                if !same_multiset(run, got) {
+                    self.viol(cx, w, "run-permutation", &format!("{}:marks-left-their-run", cname), None, &format!("mark run at {}..{} is not a permutation of itself", s, i));
+                } else if arabic {
+                    let mut full = out.to_vec();
+                    full[s..i].copy_from_slice(&exp);
+                    let mut sorted = run.to_vec();
+                    self.u.stable_sort_run(&mut sorted);
+                    let what = if got == &sorted[..] {
+                        "amtra-rules-not-applied"
+                    } else if got.iter().position(|&c| self.u.ccc(c) == 33) != exp.iter().position(|&c| self.u.ccc(c) == 33)
+                        || count_leading_after_mcm(got, &self.u) != count_leading_after_mcm(&exp, &self.u)
+                    {
+                        "shadda-placement"
+                    } else {
+                        "order"
+                    };
+                    self.viol(cx, w, "amtra", &format!("arabic:amtra-mismatch:{}:{}", what, len_cls), Some(&full), &format!("mark run at {}..{} differs from the UTR #53 reference", s, i));
+                } else {
+                    let sorted = got.windows(2).all(|p| self.u.mcc(p[0]) <= self.u.mcc(p[1]));
+                    let mut full = out.to_vec();
+                    full[s..i].copy_from_slice(&exp);
+                    let what = if sorted { "unstable" } else { "unsorted" };
+                    self.viol(cx, w, "stable-sort", &format!("{}:mark-run-{}:{}", cname, what, len_cls), Some(&full), &format!("mark run at {}..{} is not the stable sort by modified combining class", s, i));
+                }
+                return false;
+            }
+        }
+        true
+    }
+
+    /// Layers 1 and 2 for Thai/Lao, Indic, Khmer. Returns false when a violation was reported.
+    fn check_rewriting(&self, cx: &mut Ctx, w: &Wit, known_all: bool) -> bool {
+        let (text, out) = (w.text, w.out);
+        let class = w.class;
+        let cname = class.name();
+        let (beng, knda) = w.sc.map(|s| (s.beng, s.knda)).unwrap_or((false, false));
+        if let Err(why) = self.multiset_explained(class, beng, text, out) {
+            self.viol(cx, w, "multiset", &format!("{}:{}", cname, why), None, "the characters of the output are not the characters of the input modulo the documented rewrites");
+            return false;
+        }
+        let max_len = text.len() * 3 + 1;
+        if out.len() > max_len || out.len() * 2 < text.len() {
+            self.viol(cx, w, "length", &format!("{}:length", cname), None, "length change out of bounds");
+            return false;
+        }
+        if !known_all {
+            cx.class("unknown-chars:multiset-only");
+            return true;
+        }
+        if !self.base_order_preserved(class, beng, text, out) {
+            self.viol(cx, w, "base-moved", &format!("{}:base-order", cname), None, "class-0 characters not involved in a documented rewrite changed their relative order");
+            return false;
+        }
+        match class {
+            Class::Khmer => {
+                let exp = self.u.model_khmer(text);
+                if out != &exp[..] {
+                    self.viol(cx, w, "exact", "khmer:exact-mismatch", Some(&exp), "differs from: U+17C1 inserted before each split vowel, then stable sort of the mark runs");
+                    return false;
+                }
+            }
+            Class::ThaiLao => {
+                // readings: (only same-script above-base marks count, sort before splitting)
+                const READINGS: [(bool, bool); 4] = [(false, false), (true, false), (false, true), (true, true)];
+                let nam = text.iter().filter(|&&c| am_split(c).is_some()).count();
+                let exp = self.u.model_thai_lao(text, false, false, usize::MAX);
+                if out != &exp[..] {
+                    if nam > 0 && READINGS[1..].iter().any(|&(ss, ps)| out == &self.u.model_thai_lao(text, ss, ps, usize::MAX)[..]) {
+                        cx.class("exact:thai-lao-alternative-reading");
+                        return true;
+                    }
+                    // documented split not applied to the last AM vowels?
+                    for k in (0..nam).rev() {
+                        if READINGS.iter().any(|&(ss, ps)| out == &self.u.model_thai_lao(text, ss, ps, k)[..]) {
+                            cx.class("note:thai-lao-am-left-unsplit");
+                            if self.strict {
+                                self.viol(cx, w, "missed-rewrite", "thai-lao:am-left-unsplit", Some(&exp), &format!("only the first {} of {} SARA AM / AM vowels were decomposed", k, nam));
+                                return false;
+                            }
+                            return true;
+                        }
+                    }
+                    self.viol(cx, w, "exact", "thai-lao:exact-mismatch", Some(&exp), "differs from: AM -> nikhahit + aa with the nikhahit before the preceding above-base marks, then stable sort of the mark runs");
+                    return false;
+                }
+            }
+            Class::Indic | Class::Indic2 => {
+                if class == Class::Indic2 && out == &self.u.model_default(text)[..] {
+                    cx.class("indic2:default-treatment");
+                    return true;
+                }
+                // readings: (overlapping prohibited pairs all get a circle, sort before looking for pairs)
+                let exp = self.u.model_indic(text, beng, knda, false, false);
+                if out != &exp[..] {
+                    if [(true, false), (false, true), (true, true)].iter().any(|&(ov, ps)| out == &self.u.model_indic(text, beng, knda, ov, ps)[..]) {
+                        cx.class("exact:indic-alternative-reading");
+                        return true;
+                    }
+                    self.viol(cx, w, "exact", "indic:exact-mismatch", Some(&exp), "differs from: dotted circles, split vowels, stable sort of the mark runs, ya+nukta, ra-halant-ZWJ");
+                    return false;
+                }
+                if exp != self.u.model_indic(text, beng, knda, true, false) {
+                    cx.class("note:indic-overlapping-prohibited-pairs-one-circle");
+                }
+            }
+            _ => {}
+        }
+        true
+    }
+
+    fn judge(&self, cx: &mut Ctx, w: &Wit) -> bool {
+        let known_all = w.text.iter().all(|&c| self.u.known(c));
+        match w.class {
+            Class::Arabic => self.check_permutation(cx, w, true, known_all),
+            Class::Syriac | Class::Default => self.check_permutation(cx, w, false, known_all),
+            Class::Myanmar => {
+                if w.out == w.text {
+                    true
+                } else {
+                    cx.class("myanmar:changed");
+                    self.check_permutation(cx, w, false, known_all)
+                }
+            }
+            Class::ThaiLao | Class::Indic | Class::Indic2 | Class::Khmer => self.check_rewriting(cx, w, known_all),
+        }
+    }
+
+    fn events(&self, cx: &mut Ctx, w: &Wit) -> bool {
+        let (text, out) = (w.text, w.out);
+        let mut interesting = false;
+        // mark runs of the input
+        let mut longest = 0usize;
+        let mut i = 0;
+        while i < text.len() {
+            if !self.u.is_mark(text[i]) {
+                i += 1;
+                continue;
+            }
+            let s = i;
+            while i < text.len() && self.u.is_mark(text[i]) {
+                i += 1;
+            }
+            longest = longest.max(i - s);
+            if w.class == Class::Arabic && text[s..i].contains(&SHADDA) {
+                if text[s..i].iter().any(|&c| is_mcm(c)) {
+                    cx.class("shadda+mcm");
+                }
+                if i - s > 20 {
+                    cx.class("shadda-in-run>20");
+                }
+            }
+        }
+        if longest >= 2 {
+            interesting = true;
+            cx.class("run>=2");
+        }
+        if longest >= 21 {
+            cx.class("run>=21");
+        }
+        if longest >= 32 {
+            cx.class("run>=32");
+        }
+        if longest >= 65 {
+            cx.class("run>=65");
+        }
+        if text.first().map_or(false, |&c| self.u.is_mark(c)) {
+            cx.class("lone-mark-at-start");
+        }
+        if out != text {
+            interesting = true;
+            cx.class("reordered");
+        }
+        match w.class {
+            Class::ThaiLao => {
+                let am = |v: &[char]| v.iter().filter(|&&c| am_split(c).is_some()).count();
+                if am(out) < am(text) {
+                    cx.class("sara-am-split");
+                    // nikhahit moved over at least one mark?
+                    if text.windows(2).any(|p| am_split(p[1]).is_some() && self.u.is_above_thai_lao(p[0])) {
+                        cx.class("sara-am-nikhahit-moved");
+                    }
+                }
+            }
+            Class::Indic | Class::Indic2 => {
+                let comp = |v: &[char]| v.iter().filter(|&&c| matra_split(c).is_some()).count();
+                if comp(out) < comp(text) {
+                    cx.class("two-part-vowel-split");
+                }
+                if count(out, DOTTED_CIRCLE) > count(text, DOTTED_CIRCLE) {
+                    cx.class("dotted-circle-inserted");
+                }
+                let yya = ch(tb::YA_NUKTA.0);
+                if count(out, yya) > count(text, yya) {
+                    cx.class("ya-nukta");
+                }
+                if text.len() >= 3 && text[0] == KNDA_RA && text[1] == KNDA_HALANT && text[2] == ZWJ && out.len() >= 3 && out[1] == ZWJ && out[2] == KNDA_HALANT {
+                    cx.class("kannada-swap");
+                }
+                if text.len() >= 4 && text[1..].windows(3).any(|p| p == [KNDA_RA, KNDA_HALANT, ZWJ]) && w.sc.map_or(false, |s| s.knda) {
+                    cx.class("kannada-ra-halant-zwj-not-at-start");
+                }
+            }
+            Class::Khmer => {
+                if count(out, KHMER_E) > count(text, KHMER_E) {
+                    cx.class("khmer-vowel-split");
+                }
+            }
+            _ => {}
+        }
+        interesting
+    }
+
+    /// One evaluation: preprocess_text (and optionally Font::map_glyphs) on `text` with `tag`.
+    fn check_one(&mut self, cx: &mut Ctx, tag: u32, text: &[char], via_font: bool, light: bool) {
+        let sc = script_for_tag(tag);
+        let class = sc.map(|s| s.class).unwrap_or(Class::Default);
+        let input = text.to_vec();
+        let r = panic::catch_unwind(AssertUnwindSafe(move || {
+            let mut v = input;
+            preprocess_text(&mut v, tag);
+            v
+        }));
+        let out = match r {
+            Ok(v) => v,
+            Err(_) => {
+                let p = take_last_panic().unwrap_or_default();
+                if is_harness_panic(&p) {
+                    cx.inconclusive("harness-panic");
+                    eprintln!("HARNESS-PANIC C17: {} at {}", p.message, p.location);
+                } else {
+                    cx.panic_violation(
+                        "preprocess_text",
+                        &p,
+                        J::obj(vec![("script_tag", J::s(tag_str(tag))), ("script_class", J::s(class.name())), ("input", hexs(text))]),
+                    );
+                }
+                return;
+            }
+        };
+        let w = Wit { tag, sc, class, text, out: &out };
+        let ok = self.judge(cx, &w);
+        if !light {
+            cx.class(&format!("script:{}", sc.map(|s| s.name).unwrap_or("other")));
+            let interesting = self.events(cx, &w);
+            if interesting {
+                let mut h = tag as u64;
+                for &c in text {
+                    h = mix(h, c as u64);
+                }
+                cx.nontrivial(h);
+            }
+            if ok && out != text && cx.want_sample() {
+                cx.sample(J::obj(vec![("script_tag", J::s(tag_str(tag))), ("input", hexs(text)), ("output", hexs(&out))]));
+            }
+        }
+        if via_font && !self.fonts.is_empty() {
+            let s: String = text.iter().collect();
+            let k = (text.len() + tag as usize) % self.fonts.len();
+            let font = &mut self.fonts[k];
+            let r = panic::catch_unwind(AssertUnwindSafe(|| font.map_glyphs(&s, tag, MatchingPresentation::NotRequired)));
+            match r {
+                Ok(glyphs) => {
+                    let got: Vec<char> = glyphs.iter().flat_map(|g| g.unicodes.iter().copied()).collect();
+                    // map_glyphs consumes the variation selectors it understands (VS1-3, VS15, VS16)
+                    let exp: Vec<char> = out.iter().copied().filter(|&c| !matches!(c, '\u{FE00}' | '\u{FE01}' | '\u{FE02}' | '\u{FE0E}' | '\u{FE0F}')).collect();
+                    cx.class("via-map_glyphs");
+                    if got != exp || glyphs.iter().any(|g| g.unicodes.len() != 1) {
+                        let w2 = Wit { tag, sc, class, text, out: &got };
+                        self.viol(cx, &w2, "map-glyphs", "map_glyphs:unicodes-differ-from-preprocess_text", Some(&exp), "unicodes of Font::map_glyphs differ from preprocess_text's output without variation selectors");
+                    }
+                }
+                Err(_) => {
+                    let p = take_last_panic().unwrap_or_default();
+                    if is_harness_panic(&p) {
+                        cx.inconclusive("harness-panic");
+                    } else {
+                        cx.panic_violation("map_glyphs", &p, J::obj(vec![("script_tag", J::s(tag_str(tag))), ("input", hexs(text))]));
+                    }
+                }
+            }
+        }
+    }
+}
+
+/// number of characters in front of the first shadda (the MCMs moved by steps 2b/2c)
+fn count_leading_after_mcm(run: &[char], u: &Ucd) -> usize {
+    run.iter().take_while(|&&c| u.ccc(c) != 33).count()
+}
+
+// ---------------------------------------------------------------------------------------------
+// Workload
+// ---------------------------------------------------------------------------------------------
+
+const REDUCED_POOL: &[u32] = &[
+    // Arabic
+    0x0628, 0x0651, 0x0654, 0x0655, 0x0658, 0x06DC, 0x06E3, 0x08D3, 0x08F3, 0x064B, 0x064E, 0x0650, 0x0652, 0x0670, 0x0653,
+    0x0656, 0x065C, 0x0618, // Syriac
+    0x0710, 0x0711, 0x0730, 0x0731, // Hebrew
+    0x05D0, 0x05B0, 0x05B8, 0x05BC, 0x05C1, 0x05B9, 0x0591, 0x05BD, // Latin
+    0x0061, 0x0301, 0x0316, 0x0334, 0x0345, 0x035C, 0x031B, 0x0321, // Thai, Lao
+    0x0E01, 0x0E33, 0x0E32, 0x0E4D, 0x0E48, 0x0E49, 0x0E34, 0x0E38, 0x0E3A, 0x0E31, 0x0E81, 0x0EB3, 0x0ECD, 0x0EC8, 0x0EB4,
+    0x0EB8, 0x0EBA, // Devanagari
+    0x0915, 0x0930, 0x094D, 0x0907, 0x093C, 0x0905, 0x093E, 0x0946, // Bengali
+    0x09AF, 0x09BC, 0x09CD, 0x09CB, 0x09CC, 0x0985, 0x09BE, 0x09DF, 0x09C7, // Gujarati
+    0x0A85, 0x0AC5, 0x0ABE, 0x0AC8, // Telugu
+    0x0C15, 0x0C4D, 0x0C55, 0x0C56, 0x0C46, 0x0C48, 0x0C12, // Kannada
+    0x0CB0, 0x0CCD, 0x0CBC, 0x0CCB, 0x0CCA, 0x0CC0, 0x0C89, 0x0CBE, // Malayalam, Sinhala, Oriya, Tamil
+    0x0D4A, 0x0D12, 0x0D3E, 0x0DDD, 0x0DDA, 0x0DCA, 0x0D91, 0x0DD9, 0x0B48, 0x0B4B, 0x0BCA, // Khmer
+    0x1780, 0x17BE, 0x17C1, 0x17C4, 0x17D2, 0x17DD, // Myanmar
+    0x1000, 0x1037, 0x1039, 0x103A, // Tibetan
+    0x0F40, 0x0F71, 0x0F72, 0x0F74, // specials
+    0x200D, 0x200C, 0x034F, 0x25CC, 0xFE0F, 0xFE00, 0x0020, 0x1D165, 0x1E8D0, 0x1F600,
+];
+
+const TRIPLE_POOL: &[u32] = &[
+    0x0628, 0x0651, 0x0654, 0x0655, 0x064E, 0x0650, 0x0E01, 0x0E33, 0x0E48, 0x0E34, 0x0E38, 0x0930, 0x094D, 0x0907, 0x09AF,
+    0x09BC, 0x09CD, 0x0CB0, 0x0CCD, 0x200D, 0x0CBC, 0x0A85, 0x0AC5, 0x0ABE, 0x17BE, 0x0301, 0x0316,
+];
+
+const QUICK_TAGS: &[&[u8; 4]] = &[
+    b"arab", b"syrc", b"thai", b"lao ", b"deva", b"beng", b"knda", b"gujr", b"sinh", b"telu", b"khmr", b"mymr", b"latn", b"hebr",
+    b"bng2", b"zzzz",
+];
+
+impl Prop for C17 {
+    fn exhaustive(&mut self, cx: &mut Ctx, shard: u64, of: u64) {
+        let tags: Vec<u32> = if cx.quick() {
+            QUICK_TAGS.iter().map(|b| t(b)).collect()
+        } else {
+            let mut v: Vec<u32> = SCRIPTS.iter().map(|s| s.tag).collect();
+            v.push(t(b"zzzz"));
+            v
+        };
+        // every code point of the pool alone
+        let mut pool: Vec<char> = Vec::new();
+        for (_, b) in &self.blocks {
+            pool.extend_from_slice(&b.bases);
+            pool.extend_from_slice(&b.marks);
+        }
+        pool.extend_from_slice(&self.all_marks);
+        pool.extend_from_slice(&self.specials);
+        pool.extend_from_slice(&self.astral);
+        pool.sort_unstable();
+        pool.dedup();
+        let viol0 = cx.violations;
+        let mut idx: u64 = 0;
+        let mut n: u64 = 0;
+        for &tag in &tags {
+            for &c in &pool {
+                idx += 1;
+                if idx % of != shard {
+                    continue;
+                }
+                cx.case_seed = 0xE17_0000_0000 + idx;
+                cx.evals += 1;
+                n += 1;
+                self.check_one(cx, tag, &[c], false, true);
+            }
+        }
+        cx.class_n("exhaustive:single", n);
+        // every ordered pair of the reduced pool
+        let red: Vec<char> = REDUCED_POOL.iter().map(|&cp| ch(cp)).filter(|&c| self.u.known(c)).collect();
+        n = 0;
+        for &tag in &tags {
+            for &a in &red {
+                for &b in &red {
+                    idx += 1;
+                    if idx % of != shard {
+                        continue;
+                    }
+                    cx.case_seed = 0xE17_0000_0000 + idx;
+                    cx.evals += 1;
+                    n += 1;
+                    self.check_one(cx, tag, &[a, b], false, true);
+                }
+            }
+        }
+        cx.class_n("exhaustive:pair", n);
+        // every ordered triple of a tiny pool
+        let tri: Vec<char> = TRIPLE_POOL.iter().map(|&cp| ch(cp)).collect();
+        n = 0;
+        for &tag in &tags {
+            for &a in &tri {
+                for &b in &tri {
+                    for &c in &tri {
+                        idx += 1;
+                        if idx % of != shard {
+                            continue;
+                        }
+                        cx.case_seed = 0xE17_0000_0000 + idx;
+                        cx.evals += 1;
+                        n += 1;
+                        self.check_one(cx, tag, &[a, b, c], false, true);
+                    }
+                }
+            }
+        }
+        cx.class_n("exhaustive:triple", n);
+        if cx.violations == viol0 {
+            cx.class("exhaustive:clean");
+        }
+    }
+
+    fn case(&mut self, cx: &mut Ctx, rng: &mut Rng) {
+        let s = self.pick_script(rng);
+        let tag = if rng.chance(1, 40) { rng.u32() } else { s.tag };
+        let text = if rng.chance(1, 12) {
+            cx.class("text:arbitrary-code-points");
+            self.gen_arbitrary(rng)
+        } else {
+            self.gen_text(rng, s)
+        };
+        if text.is_empty() {
+            cx.class("text:empty");
+        } else if text.len() == 1 {
+            cx.class("text:one-char");
+        }
+        let via_font = rng.chance(1, 8);
+        self.check_one(cx, tag, &text, via_font, false);
+    }
+}
